@@ -118,9 +118,18 @@ def run(ck):
         vals = [rng.randint(1, 30) for _ in range(n)]
         groups.append(agree_group(vals, k, rng, ilp=(not q and i % 10 == 0)))
         ck.cat("agreement_groups")
-    for i in range(40 if q else 800):      # one item at least as large as all the others together, four bins: the rest is an instance of its own with three bins
-        rest = [rng.randint(1, rng.choice([30, 60, 200])) for _ in range(rng.randint(8, 9))]
-        groups.append(agree_group([sum(rest) + rng.choice([0, 1, 5, 40])] + rest, 4, rng, ilp=False))
+    # one item at least as large as all the others together, 4-5 bins: the rest is an instance of its own with one bin fewer, and what is optimal for the rest alone
+    # (its difference) is not what the whole needs (its smallest sum).  About 1 in 100 such instances tells the two apart, hence many small groups: the exact
+    # difference-minimisers only (complete greedy, dp, snp, rnp).
+    for i in range(500 if q else 5000):
+        k = 4 if i % 4 else 5
+        rest = [rng.randint(1, rng.choice([60, 200, 1000])) for _ in range(rng.randint(7, 8) if k == 4 else 7)]
+        vals = [sum(rest) + rng.choice([0, 1, 5, 40])] + rest
+        evs = [dict(alg="cg", o="diff", kp=0, sw=sw_dict("1101"), swc="1101", kind="part", var="agree", vals=vals, k=k)]
+        evs += [dict(alg=a, o="diff", kp=0, kind="part", var="agree", vals=vals, k=k) for a in ("snp", "rnp")]
+        if i % 5 == 0:
+            evs.append(dict(alg="dp", o="diff", kp=0, kind="part", var="agree", vals=vals, k=k))
+        groups.append({"base": {"vals": vals, "k": k}, "events": evs, "watchdog": 30})
         ck.cat("agreement_groups_heavy_item")
     for g in gen.near_equal_large(rng, 12 if q else 250):      # large, relatively close values (tolerance comparisons, precision): exact solvers must still agree
         groups.append(agree_group(g["vals"], g["k"], rng, ilp=False))
